@@ -55,7 +55,9 @@ FIXED = ['class A : ;', 'defvar = 1;', 'defset int = { }', 'defvar v = x[1...];'
          'def A#B { int x = 1; }', 'def A#B#C : D { }', 'defm A#B : C;', 'def A#B;', 'def a[0].f#b { }', 'multiclass M { }',
          'multiclass M<int a> : B { defm X : C<a>; }', 'class A { field int x = 1; code c = [{ x }]; dump "m"; }',
          'defvar v = a.b.c[0, 1]{3-1}; ', 'defvar v = !foreach(x, [1], x);', 'let A<1> = 2, B = 3 in def X;',
-         'class A<bits<2> b = {1, 0}, list<int> l = [1]> ;', 'if !eq(1, 2) then def A; else if 1 then def B;']
+         'class A<bits<2> b = {1, 0}, list<int> l = [1]> ;', 'if !eq(1, 2) then def A; else if 1 then def B;',
+         'def : Outer<Inner<x = 1>>;', 'def d : A<B<x = 1>, 2>;', 'def d : A<B<1, y = 2>, C<z = 3>, w = D<4>>;', 'def d : Foo<!xor(a, b)>;',
+         'defvar v = Foo<!add(a, b)>.f;', 'def d : A<[B<x = 1>], (op C<y = 2>:$n)>;', 'class A : B<!cond(1: C<x = 2>)>;']
 
 
 class Grammars:
@@ -170,6 +172,29 @@ def systematic(s):
         out.append(s[:i] + [s[i]] + s[i:])
         if i + 1 < len(s):
             out.append(s[:i] + [s[i + 1], s[i]] + s[i + 2:])
+    return out
+
+
+def class_substitutions(gr, sents, rng):
+    """a terminal class with several token kinds (BANGOP, INT): for every distinct left context in which a member occurs,
+    the same sentence with EVERY other member of the class at that position (still a sentence)"""
+    classes = {}
+    for k in gr.bang:
+        classes[k] = [(b, "!" + gr.bang_sp[b]) for b in gr.bang if b in gr.bang_sp]
+    ints = [("IntVal", "5"), ("BinaryIntVal", "0b11")]
+    classes["IntVal"] = ints
+    classes["BinaryIntVal"] = ints
+    seen, out = set(), []
+    for s in sents:
+        for i, (k, _) in enumerate(s):
+            if k in classes:
+                ctx_ = (s[i - 1][0] if i else None, "bang" if k in gr.bang else "int")
+                if ctx_ in seen:
+                    continue
+                seen.add(ctx_)
+                for alt in classes[k]:
+                    if alt[0] != k:
+                        out.append(s[:i] + [alt] + s[i + 1:])
     return out
 
 
@@ -310,6 +335,7 @@ def run(ctx):
     fixed_sents = [[(inv_sk[k], x) for k, x in s] for s in fixed_toks]
     allc = list(fixed_sents) + list(sents)
     nvar = 5 if ctx.quick else 8
+    allc += class_substitutions(gr, fixed_sents + sents, rng)
     for s in fixed_sents:
         allc += systematic(s)
         allc += variants(s, rng, 12)
